@@ -72,18 +72,20 @@ func writeSentinel(v reflect.Value) {
 		}
 		v.Set(m)
 	case reflect.Struct:
-		// the first field that can be changed (pointers followed; a nil pointer field is set)
+		// the first field that can be changed
 		for i := 0; i < v.NumField(); i++ {
 			f := v.Field(i)
 			if !f.CanSet() {
 				continue
 			}
 			if f.Kind() == reflect.Ptr {
+				// change the struct's own memory (the pointer), not what the pointer shares with other copies
 				if f.IsNil() {
 					f.Set(reflect.New(f.Type().Elem()))
-					return
+				} else {
+					f.Set(reflect.Zero(f.Type()))
 				}
-				f = f.Elem()
+				return
 			}
 			writeSentinel(f)
 			return
